@@ -37,6 +37,11 @@ def units(ctx):
         'BOUNDED: 1500 random context forests (depth <= 3, null values, '
         'exclusive registrations, naming convention) x every variable name '
         '/ function name, compared with the reference layer model'))
+    # registration under a layer's own naming convention
+    from contracts import specs as _s6
+    from vlib.pyvc.unit import contract_unit as _cu6
+    us += [_cu6(c, world_setup=_s6.setup_definition_named)
+           for c in _s6.definition_contracts() if 'C17' in c.serves]
     return us
 
 
